@@ -28,6 +28,15 @@ class Unsupported(Exception):
     pass
 
 
+def _supported_flags():
+    import re
+
+    return re.UNICODE | re.IGNORECASE | re.VERBOSE | re.DOTALL | re.MULTILINE | re.ASCII
+
+
+SUPPORTED_FLAGS = _supported_flags()
+
+
 # ------------------------------------------------------------------ regex -> Re (JSON form)
 def _cls(neg, ranges):
     return {"k": "cls", "neg": bool(neg), "r": [[int(a), int(b)] for a, b in ranges]}
@@ -42,18 +51,33 @@ def _cat(items):
     return {"k": "cat", "a": items}
 
 
-def _seq(sub):
+def _fold(ranges, flags):
+    """re.IGNORECASE on ASCII subjects: add the other case of every ASCII letter of the set"""
+    import re
+
+    if not flags & re.IGNORECASE:
+        return ranges
+    out = list(ranges)
+    for lo, hi in ranges:
+        for a, b, d in ((65, 90, 32), (97, 122, -32)):
+            x, y = max(lo, a), min(hi, b)
+            if x <= y:
+                out.append((x + d, y + d))
+    return out
+
+
+def _seq(sub, flags=0):
     import re
 
     c = re._constants
     out = []
     for op, av in sub:
         if op is c.LITERAL:
-            out.append(_cls(False, [(av, av)]))
+            out.append(_cls(False, _fold([(av, av)], flags)))
         elif op is c.NOT_LITERAL:
-            out.append(_cls(True, [(av, av)]))
+            out.append(_cls(True, _fold([(av, av)], flags)))
         elif op is c.ANY:
-            out.append(_cls(True, [(10, 10)]))
+            out.append(_cls(True, [] if flags & re.DOTALL else [(10, 10)]))
         elif op is c.IN:
             neg, ranges = False, []
             for iop, iav in av:
@@ -66,15 +90,15 @@ def _seq(sub):
                 elif iop is c.CATEGORY and iav is c.CATEGORY_DIGIT:
                     ranges.extend(DIGIT)
                 elif iop is c.CATEGORY and iav is c.CATEGORY_SPACE:
-                    ranges.extend(SPACE + [[28, 31]])
+                    ranges.extend(SPACE if flags & re.ASCII else SPACE + [[28, 31]])
                 elif iop is c.CATEGORY and iav is c.CATEGORY_WORD:
                     ranges.extend(WORD)
                 else:
                     raise Unsupported("class item %r" % ((iop, iav),))
-            out.append(_cls(neg, ranges))
+            out.append(_cls(neg, _fold([tuple(r) for r in ranges], flags)))
         elif op in (c.MAX_REPEAT, c.MIN_REPEAT):
             lo, hi, body = av
-            b = _cat(_seq(body))
+            b = _cat(_seq(body, flags))
             if lo > 8 or (hi is not c.MAXREPEAT and hi > 8):
                 raise Unsupported("large counted repeat")
             items = [b] * lo
@@ -88,15 +112,15 @@ def _seq(sub):
             _, add_flags, del_flags, body = av
             if add_flags or del_flags:
                 raise Unsupported("inline flags")
-            out.append(_cat(_seq(body)))
+            out.append(_cat(_seq(body, flags)))
         elif op is c.BRANCH:
-            out.append({"k": "alt", "a": [_cat(_seq(x)) for x in av[1]]})
+            out.append({"k": "alt", "a": [_cat(_seq(x, flags)) for x in av[1]]})
         elif op is c.AT and av is c.AT_BEGINNING:
-            out.append({"k": "bol"})
+            out.append({"k": "mbol" if flags & re.MULTILINE else "bol"})
         elif op is c.AT and av is c.AT_BEGINNING_STRING:
             out.append({"k": "bol"})
         elif op is c.AT and av is c.AT_END:
-            out.append({"k": "eol"})
+            out.append({"k": "meol" if flags & re.MULTILINE else "eol"})
         else:
             raise Unsupported("regex node %r" % ((op, av),))
     return out
@@ -106,12 +130,11 @@ def regex_to_re(pattern: str, flags: int = 0):
     """model `Re` (JSON form) of a Python str pattern of the supported fragment, ASCII subjects"""
     import re
 
-    if flags & ~re.UNICODE:
-        raise Unsupported("flags")
-    parsed = re._parser.parse(pattern)
-    if parsed.state.flags & ~re.UNICODE:
-        raise Unsupported("flags")
-    return _cat(_seq(parsed))
+    parsed = re._parser.parse(pattern, flags)  # re.VERBOSE is resolved here
+    flags = parsed.state.flags  # includes global inline flags
+    if flags & ~SUPPORTED_FLAGS:
+        raise Unsupported("flags %d" % (flags & ~SUPPORTED_FLAGS))
+    return _cat(_seq(parsed, flags))
 
 
 def re_to_lean(j) -> str:
@@ -122,6 +145,8 @@ def re_to_lean(j) -> str:
         return "Re.bol"
     if k == "eol":
         return "Re.eol"
+    if k in ("meol", "mbol"):
+        return "Re." + k
     if k == "cls":
         return "(Re.cls %s [%s])" % ("true" if j["neg"] else "false", ", ".join("(%d, %d)" % (a, b) for a, b in j["r"]))
     if k == "star":
